@@ -181,8 +181,11 @@ def m_x_Attribute(self, st, n, k):
                     isset = z3.Select(st.heap[key], base.z)
                     return self.with_raises(st, [(z3.Not(isset), 'AttributeError')],
                                             lambda st: k(st, self.read_attr(st, base, n.attr)))
-                return k(st, self.read_attr(st, base, n.attr))
-            if base.cls == 'Field' and n.attr in ('pack', 'unpack', 'init', 'pack_regexp'):
+                v = self.read_attr(st, base, n.attr)
+                if isinstance(v, VDyn) and 'self' in self.fn_env and base.z.eq(self.fn_env['self'].z):
+                    v.origin = n.attr
+                return k(st, v)
+            if base.cls == 'Field' and n.attr in ('pack', 'unpack', 'init', 'pack_regexp', '_compile'):
                 return k(st, VFunc('role', 'FIELD.' + n.attr, base.z))
             c = self.method_contract(base.cls, n.attr)
             if c is not None:
@@ -488,6 +491,8 @@ def m_call(self, st, f, pos, kws, kwstar, starv, k, node=None):
     if f.tag == 'builtin':
         return self.call_builtin(st, f.payload[0], pos, kws, kwstar, starv, k)
     if f.tag == 'bound':
+        if f.payload[1] in ('pack_impl',):
+            return self.bm_dyn_pack_impl(st, f.payload[0], pos, kws, k, kwstar=kwstar)
         return self.call_bound(st, f.payload[0], f.payload[1], pos, kws, k)
     if f.tag == 'class':
         return self.call_class(st, f.payload[0], pos, kws, kwstar, k)
@@ -540,12 +545,15 @@ def m_bind_args(self, c, pos, kws, kwstar):
         elif getattr(c, 'varkw', None):
             pass
         elif kwparam:
+            base = kwstar.z if kwstar is not None else self.empty_kw()
             if name == 'packing':
-                kwstar = VKw(T.Kw.mkkw(T.Kw.has_ipp(kwstar.z), T.Kw.ipp(kwstar.z), T.Kw.has_root(kwstar.z),
-                                       T.Kw.root(kwstar.z), self.truth(None, v), T.Kw.rest(kwstar.z)))
+                kwstar = VKw(kw_with(base, packing=self.truth(None, v)))
             elif name == 'root':
-                base = kwstar.z if kwstar is not None else self.empty_kw()
-                kwstar = VKw(T.Kw.mkkw(T.Kw.has_ipp(base), T.Kw.ipp(base), True, v.z, T.Kw.packing(base), T.Kw.rest(base)))
+                kwstar = VKw(kw_with(base, has_root=z3.BoolVal(True), root=v.z))
+            elif name == 'raw' and isinstance(v, VBytes):
+                kwstar = VKw(kw_with(base, has_raw=z3.BoolVal(True), kraw=v.z))
+            elif name == 'offset':
+                kwstar = VKw(kw_with(base, has_off=z3.BoolVal(True), koff=self.as_int(v)[0]))
             else:
                 raise Untranslated('extra keyword %s for %s' % (name, c.name))
         else:
@@ -565,6 +573,12 @@ def m_bind_args(self, c, pos, kws, kwstar):
         # **k forwarded to a callee without **k: the keys pkt/raw/offset would have to be in k; unsupported
         raise Untranslated('**k passed to %s which has no **k' % c.name)
     for p in plain:
+        if p not in env and kwstar is not None and p in ('raw', 'offset'):
+            # the argument travels inside **k (Ref._unpack_referencing_a_packet: p.unpack_impl(**k))
+            env[p] = VBytes(T.Kw.kraw(kwstar.z)) if p == 'raw' else VInt(T.Kw.koff(kwstar.z))
+            self.pending_pre.append((T.Kw.has_raw(kwstar.z) if p == 'raw' else T.Kw.has_off(kwstar.z),
+                                     '**k carries %s' % p))
+            continue
         if p not in env:
             d = getattr(c, 'defaults', {}).get(p)
             if d is None:
@@ -573,12 +587,36 @@ def m_bind_args(self, c, pos, kws, kwstar):
     return env
 
 
+KW_FIELDS = ['has_ipp', 'ipp', 'has_root', 'root', 'packing', 'rest', 'has_raw', 'kraw', 'has_off', 'koff']
+
+
+def kw_with(z, **upd):
+    vals = []
+    for f in KW_FIELDS:
+        vals.append(upd[f] if f in upd else getattr(T.Kw, f)(z))
+    return T.Kw.mkkw(*vals)
+
+
 def m_empty_kw(self):
-    return T.Kw.mkkw(False, 0, False, 0, False, 0)
+    return T.Kw.mkkw(False, 0, False, 0, False, 0, False, T.bempty, False, 0)
 
 
 def m_call_contract(self, st, c, pos, kws, kwstar, k, site=''):
+    self.pending_pre = []
     env = self.bind_args(c, pos, kws, kwstar)
+    for g, text in self.pending_pre:
+        self.add_obligation(st, 'pre@call', '%s for %s' % (text, short(c.name)), g, text)
+        st.assume(g)
+    # sidecar assertions attached to calls of this callee (arg_<param> = actual argument)
+    for clause in self.cur.call_asserts.get(short(c.name), []) if self.cur is not None else []:
+        e2 = dict(self.fn_env)
+        e2.update({nm: v for nm, v in st.loc.items() if v is not None})
+        e2.update({g: v for g, v in st.ghost.items() if isinstance(v, V)})
+        e2.update({'arg_' + p: v for p, v in env.items()})
+        self.add_obligation(st, 'assert@call', 'at call of %s: %s' % (short(c.name), clause[:60]),
+                            self.spec_goal(st, clause, e2, old=self.fn_pre), clause)
+    for g, expr in (self.cur.call_effects.get(short(c.name), {}) if self.cur is not None else {}).items():
+        st.ghost[g] = self.spec(st, expr, dict(self.fn_env))
     # a dynamically typed argument for a typed parameter: its type is an obligation
     for p, kind in c.params.items():
         v = env.get(p)
@@ -590,6 +628,11 @@ def m_call_contract(self, st, c, pos, kws, kwstar, k, site=''):
             self.add_obligation(st, 'pre@call', 'argument %s of %s is a %s' % (p, short(c.name), kind[4:]),
                                 self.isinst(st, v, kind[4:]), 'type of argument')
             env[p] = VRef(T.Val.rval(v.z), kind[4:])
+    for p, kind in c.params.items():
+        if kind == 'conf' and isinstance(env.get(p), VDictLit) and not env[p].items:
+            env[p] = VConf(T.Conf.mkconf(z3.K(T.S, z3.BoolVal(False)), z3.K(T.S, T.Val.VN)))
+        if kind == 'list' and isinstance(env.get(p), VSeqAbs):
+            raise Untranslated('abstract sequence passed as a list')
     call_st = st.fork()
     # check preconditions
     for i, r in enumerate(c.requires):
@@ -1334,6 +1377,14 @@ def m_bm_dyn_to_bytes(self, st, v, pos, kws, k):
 m_bm_int_to_bytes = None
 
 
+def m_bm_dyn_pack_impl(self, st, v, pos, kws, k, kwstar=None):
+    obj = VRef(T.Val.rval(v.z), 'Packet')
+    isp = z3.And(T.Val.is_VR(v.z), self.inst_of(T.Val.rval(v.z), 'Packet'))
+    c = self.contracts['packet:Packet.pack_impl']
+    return self.with_raises(st, [(z3.Not(isp), 'AttributeError')],
+                            lambda st: self.call_contract(st, c, [obj] + pos, kws, kwstar, k))
+
+
 def m_bm_dyn_search(self, st, v, pos, kws, k):
     return self.with_raises(st, [(z3.Not(self.is_regex(v.z)), 'AttributeError')],
                             lambda st: self.bm_rx_search(st, VRx(T.Val.oval(v.z)), pos, kws, k))
@@ -1446,14 +1497,26 @@ def m_call_cb(self, st, fnid, pos, kws, kwstar, k):
     res, rz = self.cb_apply(st, fnid, '_'.join(shape), args)
     s2 = st.fork('cb-raises')
     s2.assume(rz)
-    self.do_raise(s2, VExc('Exception*', eid=fresh('eid', T.I)))
+    # (a user callback is assumed not to raise a PacketError of its own)
+    self.do_raise(s2, VExc('OtherException*', eid=fresh('eid', T.I)))
     st.assume(z3.Not(rz))
     return k(st, VDyn(res))
 
 
 def m_call_dyn(self, st, f, pos, kws, kwstar, k):
+    g = self.cur.call_ghost.get(getattr(f, 'origin', None)) if self.cur is not None else None
+
+    def k2(st, v):
+        if g is not None:       # sidecar ghost: the value this callback returned in this execution
+            if isinstance(g, tuple):    # (name, 'truth'): its truthiness at the time of the call
+                st.ghost[g[0]] = VBool(self.truth(st, v))
+                st.ghost[g[0] + '_called'] = VBool(True)
+            else:
+                st.ghost[g] = v
+                st.ghost[g + '_called'] = VBool(True)
+        return k(st, v)
     return self.with_raises(st, [(z3.Not(self.is_callable(f.z)), 'TypeError')],
-                            lambda st: self.call_cb(st, callable_id(f.z), pos, kws, kwstar, k))
+                            lambda st: self.call_cb(st, callable_id(f.z), pos, kws, kwstar, k2))
 
 
 def callable_id(z):
@@ -1569,7 +1632,7 @@ def m_assign(self, st, target, v, k):
                 return k(st)
             if isinstance(base, VKw) and isinstance(idx, VStr) and idx.py == 'innermost-pkt-pos':
                 x, c = self.as_int(v)
-                newk = T.Kw.mkkw(True, x, T.Kw.has_root(base.z), T.Kw.root(base.z), T.Kw.packing(base.z), T.Kw.rest(base.z))
+                newk = kw_with(base.z, has_ipp=z3.BoolVal(True), ipp=x)
                 # k is a local name
                 if isinstance(target.value, ast.Name):
                     st.loc[target.value.id] = VKw(newk)
@@ -1602,11 +1665,24 @@ def to_load(t):
     return t2
 
 
+def m_narrow(self, st, test):
+    """after a successful isinstance(name, Class) test the local is known to be an object of that class"""
+    if isinstance(test, ast.Call) and isinstance(test.func, ast.Name) and test.func.id == 'isinstance' \
+            and len(test.args) == 2 and isinstance(test.args[0], ast.Name) and isinstance(test.args[1], ast.Name):
+        nm, cls = test.args[0].id, test.args[1].id
+        v = st.loc.get(nm)
+        if isinstance(v, VDyn) and cls in self.classes:
+            st.loc[nm] = VRef(T.Val.rval(v.z), cls)
+
+
 def m_s_If(self, st, s, k):
     def got(st, c):
         t = self.truth(st, c)
-        self.branch(st, t, lambda st: self.exec_block(st, s.body, k),
-                    lambda st: self.exec_block(st, s.orelse, k), 'if@%d:' % s.lineno_rel)
+
+        def then(st):
+            self.narrow(st, s.test)
+            return self.exec_block(st, s.body, k)
+        self.branch(st, t, then, lambda st: self.exec_block(st, s.orelse, k), 'if@%d:' % s.lineno_rel)
     return self.ev(st, s.test, got)
 
 
@@ -1614,7 +1690,11 @@ def m_s_Assert(self, st, s, k):
     def got(st, c):
         t = self.truth(st, c)
         self.used_assumptions.add('assert statements are live (no python -O)')
-        return self.with_raises(st, [(z3.Not(t), 'AssertionError')], k)
+
+        def cont(st):
+            self.narrow(st, s.test)
+            return k(st)
+        return self.with_raises(st, [(z3.Not(t), 'AssertionError')], cont)
     return self.ev(st, s.test, got)
 
 
@@ -1845,6 +1925,10 @@ def m_s_For(self, st, s, k):
     idx, spec = self.loop_spec(s)
 
     def got_iter(st, seq):
+        if isinstance(seq, VDyn):
+            # iterating a dynamic value: a list (anything else that is iterable is outside the value model)
+            lst = VList(T.Val.lval(seq.z))
+            return self.with_raises(st, [(z3.Not(T.Val.is_VL(seq.z)), 'TypeError')], lambda st: got_iter(st, lst))
         if isinstance(seq, VList):
             n0 = self.llen(st, seq.z)
             arr0 = z3.Select(st.heap['lat'], seq.z)
@@ -1878,6 +1962,7 @@ def m_s_For(self, st, s, k):
         s1.ctx = wrap_ctx(outer, on_break=on_break, on_continue=after_body)
 
         def start_iter(st2):
+            st2.ghost['it'] = VInt(it)
             for g, expr in spec.ghost.items():      # sidecar ghost code: g := expr at iteration start
                 st2.ghost[g] = self.spec(st2, expr, inv_env(st2, it), old=self.fn_pre)
             return self.exec_block(st2, s.body, after_body)
@@ -1905,6 +1990,14 @@ def wrap_ctx(outer, on_break, on_continue):
 def m_s_While(self, st, s, k):
     if s.orelse:
         raise Untranslated('while/else')
+    # zero iterations: if the condition is false on entry the loop is skipped (no cut needed)
+    def got0(st, c):
+        t = self.truth(st, c)
+        self.branch(st, t, lambda st: self.while_cut(st, s, k), k, 'while-entry:')
+    return self.ev(st, s.test, got0)
+
+
+def m_while_cut(self, st, s, k):
     idx, spec = self.loop_spec(s)
     assigned = assigned_names(s.body)
     entry, it, inv_env = self.loop_head(st, idx, spec, assigned, 'it')
@@ -1924,6 +2017,9 @@ def m_s_While(self, st, s, k):
 
         def body(st2):
             st2.ctx = wrap_ctx(outer, on_break=on_break, on_continue=after_body)
+            st2.ghost['it'] = VInt(it)
+            for g, expr in spec.ghost.items():      # sidecar ghost code: g := expr at iteration start
+                st2.ghost[g] = self.spec(st2, expr, inv_env(st2, it), old=self.fn_pre)
             self.exec_block(st2, s.body, after_body)
         self.branch(st, t, body, k, 'loop%d:' % idx)
     return self.ev(st, s.test, got)
@@ -2119,7 +2215,9 @@ def m_end_normal(self, st, c, env, pre, v):
     self.apply_ghost(st, c, env, pre)
     env2 = dict(env)
     env2.update({g: v for g, v in st.ghost.items() if isinstance(v, V)})
-    if c.returns == 'none':
+    if c.returns == 'any':
+        env2['result'] = v
+    elif c.returns == 'none':
         if not isinstance(v, VNone):
             self.add_obligation(st, 'post', 'returns None', z3.BoolVal(False), 'contract says the function returns None')
     else:
